@@ -11,6 +11,8 @@ from engine.model import src, stmt_key, dotted, AnalysisError
 from engine.util import own_nodes, calls_with_nodes, where, with_exprs
 
 RULES = {
+    "R-02.16": "arguments of the codec protocol land in their own slots: in dns/rdtypes, dns.rdata and dns.edns a local named like a parameter of the called to_wire / _to_wire / from_wire_parser / from_wire / from_text (file, compress, origin, canonicalize, parser, rdclass, rdtype, tok, relativize ...) is passed positionally only at that parameter's position - `helper.to_wire(file, origin)` puts the origin into the ignored `compress` slot and relative names can no longer be encoded",
+    "R-02.15": "the parser primitives every from_wire_parser is built on read exactly what they say (the rule function of C04 R-04.5, run here directly): bounded slices, unpack formats of the stated size, a 48-bit big-endian read from 6 octets, state restored by the context managers",
     "R-02.14": "a refusal and the guards after it agree (contradiction rule over dns/rdtypes): when `if a or b: raise` has been passed, both a and b are false, so a later test of the same block that still asks `not a and ...` states a belief the refusal contradicts - one of the two is wrong (e.g. GPOS: `left == b'' or right == b''` refuses '.5' and '100.', which the per-side guards `not left == b'' and ...` were written to allow). Reported as a contradiction; which side is wrong is for the reader",
     "R-02.13": "SVCB `mandatory` keys are encoded in ascending NUMERIC order (the reader refuses anything else): MandatoryParam sorts the validated key numbers - the sorted() call encloses the _validate_key mapping, it is not applied to the caller's spellings first",
     "R-02.12": "plain encoding keeps the octets: a record writer lower-cases an embedded name only when the caller asked for the canonical form - the `canonicalize` flag a subclass hands to its base writer is the caller's (or the constant the RFC 4034 table prescribes), never a constant True (C15 R-15.1 adopted)",
@@ -141,6 +143,29 @@ def _pair(model, rep, rule, label, w, r, ctx, file_name="file", where_=""):
         rep.bad(rule, label, where_, f"the file-writing arm and the bytes-returning arm of the writer disagree: {da}", stmt="arms")
     return False
 
+
+
+def check_rdata_class_dispatch(model, rep, rule):
+    """get_rdata_class dispatches by (class, type) and memoises under the key it looked up (shared with C05: text of an IN-only type must keep parsing after the type was seen in another class)."""
+    g = model.func("dns.rdata.get_rdata_class")
+    t = " ".join(src(g.node).split())
+    rep.check("rdtype_text = rdtype_text.replace('-', '_')" in t and "cls = getattr(mod, rdtype_text)" in t and "if not cls and use_generic: cls = GenericRdata" in t, rule, g.qualname, where(g, g.node),
+              "dispatch by module/class name with GenericRdata fallback", "get_rdata_class dispatch changed", stmt="dispatch-shape")
+    # the class cache is filled under the key that was looked up; only a class imported from the ANY directory is (also) stored under (ANY, rdtype)
+    stores = [n for n in ast.walk(g.node) if isinstance(n, ast.Assign) and isinstance(n.targets[0], ast.Subscript) and src(n.targets[0].value) == "_rdata_classes"]
+    rep.floor(rule + "-cache-stores", len(stores), 4)
+    gcfg = CFG(g.node, implicit_exc=False)
+    for st in stores:
+        key = " ".join(src(st.targets[0].slice).split())
+        node = next((n for n in gcfg.stmts() if n.ast is st), None)
+        if key in ("(rdclass, rdtype)", "rdclass, rdtype"):
+            rep.ok(rule, g.qualname, where(g, st), "stored under the key that was looked up", stmt="cache-key " + key + " <- " + src(st.value), nontrivial=False)
+        else:
+            anyimp = [n for n in gcfg.stmts() if isinstance(n.ast, ast.Assign) and "import_module" in src(n.ast.value) and "'ANY'" in src(n.ast.value)]
+            okk = "dns.rdataclass.ANY" in key and node is not None and bool(anyimp) and gcfg.dominated_by_set(node.id, [a.id for a in anyimp]) and src(st.value) != "GenericRdata"
+            rep.check(okk, rule, g.qualname, where(g, st), "stored under (ANY, rdtype) only for a class imported from the ANY directory",
+                      f"`{src(st)[:70]}` stores under `{key}` a class that was not imported from the class-independent (ANY) directory: the first lookup of a type with some class poisons the lookup "
+                      "of every other class (e.g. GenericRdata cached for an IN-only type)", stmt="cache-key " + key + " <- " + src(st.value))
 
 def run(model, rep, tier):
     rdata = model.cls("dns.rdata.Rdata")
@@ -302,25 +327,7 @@ def run(model, rep, tier):
         else:
             rep.bad("R-02.3", f"RdataType.{name}", "dns/rdatatype.py", "enum member has neither an implementation module nor an entry in the generic table", stmt="dispatch")
     rep.floor("R-02.3", n_impl, 60)
-    g = model.func("dns.rdata.get_rdata_class")
-    t = " ".join(src(g.node).split())
-    rep.check("rdtype_text = rdtype_text.replace('-', '_')" in t and "cls = getattr(mod, rdtype_text)" in t and "if not cls and use_generic: cls = GenericRdata" in t, "R-02.3", g.qualname, where(g, g.node),
-              "dispatch by module/class name with GenericRdata fallback", "get_rdata_class dispatch changed", stmt="dispatch-shape")
-    # the class cache is filled under the key that was looked up; only a class imported from the ANY directory is (also) stored under (ANY, rdtype)
-    stores = [n for n in ast.walk(g.node) if isinstance(n, ast.Assign) and isinstance(n.targets[0], ast.Subscript) and src(n.targets[0].value) == "_rdata_classes"]
-    rep.floor("R-02.3-cache-stores", len(stores), 4)
-    gcfg = CFG(g.node, implicit_exc=False)
-    for st in stores:
-        key = " ".join(src(st.targets[0].slice).split())
-        node = next((n for n in gcfg.stmts() if n.ast is st), None)
-        if key in ("(rdclass, rdtype)", "rdclass, rdtype"):
-            rep.ok("R-02.3", g.qualname, where(g, st), "stored under the key that was looked up", stmt="cache-key " + key + " <- " + src(st.value), nontrivial=False)
-        else:
-            anyimp = [n for n in gcfg.stmts() if isinstance(n.ast, ast.Assign) and "import_module" in src(n.ast.value) and "'ANY'" in src(n.ast.value)]
-            okk = "dns.rdataclass.ANY" in key and node is not None and bool(anyimp) and gcfg.dominated_by_set(node.id, [a.id for a in anyimp]) and src(st.value) != "GenericRdata"
-            rep.check(okk, "R-02.3", g.qualname, where(g, st), "stored under (ANY, rdtype) only for a class imported from the ANY directory",
-                      f"`{src(st)[:70]}` stores under `{key}` a class that was not imported from the class-independent (ANY) directory: the first lookup of a type with some class poisons the lookup "
-                      "of every other class (e.g. GenericRdata cached for an IN-only type)", stmt="cache-key " + key + " <- " + src(st.value))
+    check_rdata_class_dispatch(model, rep, "R-02.3")
     # ---------------------------------------------------------------- R-02.7
     n_read = 0
     for f7 in sorted(model.all_functions(), key=lambda g: g.qualname):
@@ -400,6 +407,14 @@ def run(model, rep, tier):
                     known = [k for k in known if not (stores & {x.id for x in ast.walk(ast.parse(k[0][0] + " , " + (k[0][2] or "0"), mode="eval")) if isinstance(x, ast.Name)})]
     rep.floor("R-02.14", n14, 10)
     rep.ok("R-02.14", "dns.rdtypes", "dns/rdtypes", f"{n14} multi-clause refusals: no later guard of the same block re-tests a clause they exclude", stmt="refusal-vs-guard")
+    from rules.c04 import check_parser_reads
+    check_parser_reads(model, rep, "R-02.15")
+    from rules.common import name_slot_agreement
+    _CODEC_MODS = ("dns.rdata", "dns.edns", "dns.name", "dns.wire", "dns.wirebase", "dns.tokenizer")
+    name_slot_agreement(model, rep, "R-02.16",
+                        lambda f, nm, cands: ([g for g in cands if g.module.name.startswith("dns.rdtypes") or g.module.name in _CODEC_MODS]
+                                              if (f.module.name.startswith("dns.rdtypes") or f.module.name in ("dns.rdata", "dns.edns")) and nm in ("to_wire", "_to_wire", "from_wire_parser", "from_wire", "from_text") else None),
+                        100, "the value is taken for something else (an origin in the `compress` slot is ignored: relative names raise NeedAbsoluteNameOrOrigin on encoding while decoding still relativizes)")
     rep.meta["explanation"] = (
         "Sibling cross-check: for each of ~70 record classes, the helper codecs, 9 SVCB parameter classes and 11 EDNS option classes the writer and the reader are abstractly interpreted into "
         "layout token sequences (struct formats expanded, length fields linked to the data they count, loops/optional tails/helper codecs recognised) and compared. Exact-consumption and dispatch "
@@ -407,6 +422,10 @@ def run(model, rep, tier):
 
 
 WITNESSES = [
+    {"id": "c02-amtrelay-origin-in-compress-slot", "rule": "R-02.16", "file": "dns/rdtypes/ANY/AMTRELAY.py", "expect": "fires",
+     "old": "        Relay(self.relay_type, self.relay).to_wire(file, compress, origin, canonicalize)", "new": "        Relay(self.relay_type, self.relay).to_wire(file, origin)"},
+    {"id": "c02-twin-amtrelay-keywords", "rule": "R-02.16", "file": "dns/rdtypes/ANY/AMTRELAY.py", "expect": "silent",
+     "old": "        Relay(self.relay_type, self.relay).to_wire(file, compress, origin, canonicalize)", "new": "        Relay(self.relay_type, self.relay).to_wire(file, compress, origin=origin, canonicalize=canonicalize)"},
     {"id": "c02-gpos-refusal-widened", "rule": "R-02.14", "file": "dns/rdtypes/ANY/GPOS.py", "expect": "fires",
      "old": '    if left == b"" and right == b"":', "new": '    if left == b"" or right == b"":'},
     {"id": "c02-mandatory-sorted-by-spelling", "rule": "R-02.13", "file": "dns/rdtypes/svcbbase.py", "expect": "fires",
